@@ -197,6 +197,15 @@ def runTraceWith (still : Situation → Bool) (s : Situation) (t : Tree) (killTr
 def runTrace := runTraceWith stillRunning
 def runTracePinned := runTraceWith stillRunningPinned
 
+/-- has the worker already published the child's pid when the interrupt arrives? `Popen` can be
+slow to return. `run` does not ask: a launched worker without a result has a child or is about to
+have one, and `get_pid()` waits for the pid — so the decision **as repaired** ignores it -/
+def killsAtPid (_pidKnown : Bool) (s : Situation) : Bool := kills s
+
+/-- a decision that requires the pid to be known already misses the signal at a process start -/
+def killsOnlyIfPidKnown (pidKnown : Bool) (s : Situation) : Bool :=
+  kills s && (!(wasInterrupted s) || pidKnown)
+
 /-- where an interrupt reaches `run`: while it is still inside `thread.start()`, or in the join -/
 inductive InterruptAt where
   | start
